@@ -102,11 +102,39 @@ impl HashKey for f64 {
 #[derive(Clone, Debug)]
 pub enum Value {
     Num(Array<f64>),
-    /// boxed keys are not modelled: uninhabited
-    Box(Never),
+    /// key types other than numbers are not modelled: their element type is uninhabited, so these variants
+    /// can be named by the extracted code but never constructed
+    Box(Array<NoElem>),
+    Complex(Array<NoElem>),
+    Char(Array<NoElem>),
+    Byte(Array<NoElem>),
 }
-#[derive(Clone, Debug)]
-pub enum Never {}
+/// (a private field instead of an empty enum: CBMC aborts on arrays of zero-sized uninhabited elements; no code
+/// in this crate constructs a `NoElem` array)
+#[derive(Clone, Copy, Debug, Default)]
+pub struct NoElem(u8);
+impl MapItem for NoElem {
+    fn empty_cell() -> Self {
+        unreachable!()
+    }
+    fn tombstone_cell() -> Self {
+        unreachable!()
+    }
+    fn is_any_empty_cell(&self) -> bool {
+        unreachable!()
+    }
+    fn is_any_tombstone(&self) -> bool {
+        unreachable!()
+    }
+}
+pub fn absurd<T>(_a: &Array<NoElem>) -> T {
+    unreachable!("key types other than numbers are not modelled")
+}
+impl Array<NoElem> {
+    pub fn convert_ref(&self) -> Array<f64> {
+        absurd(self)
+    }
+}
 pub struct Boxed(pub Value);
 impl From<Boxed> for Value {
     fn from(b: Boxed) -> Value {
@@ -117,7 +145,7 @@ impl Value {
     pub fn row_count(&self) -> usize {
         match self {
             Value::Num(a) => a.row_count(),
-            Value::Box(n) => match *n {},
+            Value::Box(n) | Value::Complex(n) | Value::Char(n) | Value::Byte(n) => absurd(n),
         }
     }
     pub fn row(&self, i: usize) -> Value {
@@ -126,11 +154,15 @@ impl Value {
                 // rows of a list are scalars (only scalar keys are modelled)
                 Value::Num(scalar(a.data[i]))
             }
-            Value::Box(n) => match *n {},
+            Value::Box(n) | Value::Complex(n) | Value::Char(n) | Value::Byte(n) => absurd(n),
         }
     }
     pub fn unpacked_ref(&self) -> &Value {
         self
+    }
+    /// rows of the key array, as values (only scalar keys are modelled)
+    pub fn rows(&self) -> impl Iterator<Item = Value> + '_ {
+        (0..self.row_count()).map(move |i| self.row(i))
     }
 }
 /// MODEL of `Value == Value` for two numeric arrays: equal shapes and element-wise
@@ -155,13 +187,13 @@ impl MapItem for Value {
     fn is_any_empty_cell(&self) -> bool {
         match self {
             Value::Num(num) => num.data.iter().any(|v| v.is_any_empty_cell()),
-            Value::Box(n) => match *n {},
+            Value::Box(n) | Value::Complex(n) | Value::Char(n) | Value::Byte(n) => absurd(n),
         }
     }
     fn is_any_tombstone(&self) -> bool {
         match self {
             Value::Num(num) => num.data.iter().any(|v| v.is_any_tombstone()),
-            Value::Box(n) => match *n {},
+            Value::Box(n) | Value::Complex(n) | Value::Char(n) | Value::Byte(n) => absurd(n),
         }
     }
 }
